@@ -179,7 +179,16 @@ class BuiltinMixin:
   def bi_enumerate(self, it, a, k):
     return VList([VTuple([VInt(i), x]) for i, x in enumerate(self.iter_concrete(a[0]))])
 
+  def bi_map(self, it, a, k):
+    """map over a concrete-length collection, evaluated eagerly (the mapped callables are pure here)."""
+    if len(a) != 2:
+      raise Unsupported('map with several iterables')
+    return VList([self.call_value(a[0], [x], {}) for x in self.iter_concrete(a[1])])
+
   def bi_zip(self, it, a, k):
+    if a and all(isinstance(x, VIter) for x in a):
+      strict = 'strict' in k and z3.is_true(z3.simplify(self.truth(k['strict'])))
+      return VZip(list(a), strict)
     cols = [self.iter_concrete(x) for x in a]
     if 'strict' in k and len(set(map(len, cols))) > 1:
       self.raise_('ValueError', VStr('zip() arguments have different lengths'))
@@ -288,6 +297,41 @@ class BuiltinMixin:
       self.assume(z3.ForAll([j], z3.Implies(z3.And(p <= j, j < s.n), z3.Select(s.arr, j) > x)))
     return VInt(p)
 
+  def lib_functools_partial(self, it, a, k):
+    return VPartial(a[0], a[1:], dict(k))
+
+  def lib_mit_sliced(self, it, a, k):
+    """more_itertools.sliced(seq, n) (trusted, A2): slice t is seq[t*n : (t+1)*n], ceil(len/n) slices."""
+    seq = self.unopt(a[0])
+    n = self.to_int(k['n'] if 'n' in k else a[1])
+    if not isinstance(seq, VOpaque):
+      raise Unsupported('mit.sliced of a non-opaque sequence')
+    key = ('slice_of',)
+    fn = _SLICE_OF
+    ln = len_of(seq.t)
+    count = z3.If(ln <= 0, z3.IntVal(0), (ln + n - 1) / n)
+    t = z3.Int(self.path.fresh_name('t'))
+    src = VSeq(z3.Lambda([t], fn(seq.t, t, n)), count, 'obj')
+    vit = VIter(src, z3.IntVal(0), None, True, None, tag='sliced')
+
+    def on_elem(i, v, _seq=seq, _n=n):
+      # facts about slice i (instantiated when the slice is taken)
+      st = fn(_seq.t, i, _n)
+      rest = len_of(_seq.t) - i * _n
+      self.assume(len_of(st) == z3.If(rest < _n, rest, _n))
+      j = z3.Int(self.path.fresh_name('j'))
+      self.assume(z3.ForAll([j], z3.Implies(z3.And(0 <= j, j < len_of(st)), item_of(st, j) == item_of(_seq.t, i * _n + j))))
+    vit.on_elem = on_elem
+    return vit
+
+  lib_more_itertools_sliced = lib_mit_sliced
+
+  def np_zeros(self, it, a, k):
+    n = z3.simplify(self.to_int(a[0]))
+    if not z3.is_int_value(n):
+      raise Unsupported('np.zeros of symbolic length')
+    return VVec([VInt(0) for _ in range(n.as_long())])
+
   def lib_time_time(self, it, a, k):
     """Wall clock: a non-decreasing ghost (A5)."""
     prev = self.ghost.get('__clock__')
@@ -325,6 +369,9 @@ class BuiltinMixin:
 
   def builtin_class(self, name, args, kwargs):
     raise Unsupported(f'instantiation of {name}')
+
+
+_SLICE_OF = z3.Function('slice_of', Obj, z3.IntSort(), z3.IntSort(), Obj)
 
 
 def _default(kind):
